@@ -14,8 +14,15 @@
    * struct fields, array/slice elements, map keys and values are visited in sequence with the
      same encoder state.  With CheckCircularRef every struct coder -- kStructSimple, kStruct's map
      branch and kStruct's to-array branch (toarray tag / StructToArray), omitempty or not -- hands a
-     pointer field to encodeValue UN-dereferenced (si.fieldNoAlloc(rv, encBuiltin || !chkCirRef)),
+     pointer field to encodeValue UN-dereferenced (si.fieldNoAlloc(rv, !chkCirRef || e.builtinField(si))),
      so the pointer is pushed like any other: a VStruct field that is a VPtr is an ordinary VPtr.
+     The builtin shortcut (encodeIB on the dereferenced value: struct fields, slice/array/MapBySlice
+     elements, map keys and values whose BASE type is in encodeBuiltin's type switch) is taken,
+     since fix F20-3, only for values that are not pointers or whose pointee encodeValue would
+     not record either (scalars): it never hides a pointer to a struct/slice/array/map.
+   * map keys that Canonical encodes out-of-band go through a side encoder which, since fix
+     F20-4, starts from a copy of this encoder's stack and records the key's own pointers: the
+     same thing as visiting them in sequence with this encoder's state, which is what the model does.
    * the recursion is bounded by nothing but the Go stack: the model's [d] is the stack budget,
      one unit per nested edge; [OFuel] = the budget is exhausted (a fatal stack overflow in Go,
      or, for pointer/interface chains that the code follows with `goto RV`, a hang).
@@ -150,6 +157,47 @@ Fixpoint enc_addr (addr : nat -> nat) (d : nat) (h : heap) (o : opts) (ci : list
     | VArr es => enc_list (enc_addr addr d' h o) ci es
     | VSlice a => enc_addr addr d' h o ci (cell h a)
     | VMap a => enc_addr addr d' h o ci (cell h a)
+    end
+  end.
+
+(* Which pointer edges are recorded.  [enc] records EVERY pointer whose target cell is a
+   struct/slice/array/map, wherever the pointer sits (struct field, slice/array element, map key
+   or value, interface, another pointer) and whatever the type of the target -- in particular the
+   "builtin" collection types ([]interface{}, map[string]interface{}, the other fast-path slices and
+   maps, []byte, time.Time) for which the struct/slice/map coders have a shortcut (encodeIB on the
+   dereferenced value), and pointer map keys, which Canonical encodes with a side encoder.
+   The pinned code did NOT do that: the shortcut dereferenced a pointer field / element / map
+   value without recording it (finding F20-3) and the side encoder started with an empty stack
+   and dereferenced the key (F20-4).  Both are repaired: the shortcut is not taken for a pointer
+   that encodeValue would record (encoderBase.builtinField / builtinElem) and the side encoder
+   inherits the stack (ciInherit).
+   [enc_np np] is the traversal in which the pointers to the cells selected by [np] are
+   dereferenced without being recorded: [enc_np (fun _ => false)] is [enc], and one unrecorded
+   edge on a cycle is enough to lose the property (Properties/C20.v). *)
+Fixpoint enc_np (np : nat -> bool) (d : nat) (h : heap) (o : opts) (ci : list nat) (v : val) {struct d} : out :=
+  match d with
+  | 0 => OFuel
+  | S d' =>
+    match v with
+    | VScalar | VFunc | VNil _ => OOk ci
+    | VBad b _ => match bad_class o b with Some e => OErr e ci | None => OOk ci end
+    | VPtr a =>
+        let t := cell h a in
+        if chk o && cont_kind t && negb (np a) then
+          match push ci a with
+          | None => OErr ECircular ci
+          | Some ci1 =>
+              match enc_np np d' h o ci1 t with
+              | OOk ci2 => OOk (pop 1 ci2)
+              | r => r
+              end
+          end
+        else enc_np np d' h o ci t
+    | VIface w => enc_np np d' h o ci w
+    | VStruct fs => enc_list (enc_np np d' h o) ci fs
+    | VArr es => enc_list (enc_np np d' h o) ci es
+    | VSlice a => enc_np np d' h o ci (cell h a)
+    | VMap a => enc_np np d' h o ci (cell h a)
     end
   end.
 
